@@ -20,6 +20,8 @@ import vlib
 
 LIMITS = [0, 1, 2, 50]          # 100 is handed out sparingly: as coded, Stop() hangs with it (F-C21-stopfull)
 BUGS = ["offbyone", "counter", "signal_first", "await_cb", "small_chan"]
+# rules whose verdict does not involve the block pipeline (F-C21z, F-C21-stopfull, F-C21-orphan): same keys with and without
+PIPE_INDEPENDENT = ("Z:", "End: Stop did not return", "PeerRestart:")
 PIPE_BUGS = ["nodrain", "drain_queued"]     # defects of the block pipeline dimension (Pipes = {TRUE})
 
 
@@ -70,6 +72,8 @@ def report(chk, lines, starts, rejects):
         reset = json.loads(lines[st])
         pid = reset.get("s1", "")
         lim, mode = plan_fields(pid)
+        if rule.startswith(PIPE_INDEPENDENT):
+            mode = mode.replace("-pipe", "")    # the known findings on limit 0 / Stop do not depend on the pipeline
         key = "C21:trace:%s:limit=%s:%s" % (slug(rule), lim, mode)
         ev = {k: v for k, v in json.loads(lines[l]).items() if v not in ("", 0)}
         desc = "trace of plan %s: line %d %s: %s" % (pid, l - st, json.dumps(ev), rule)
